@@ -238,7 +238,49 @@ def cmp_sched(prop, case, impl, model):
             out.append(('disagree', 'sched:modelprops', 'the replayed model run violates its own proved invariants?! ' + model.get('modelprops', '?')))
     return out
 
+def cmp_netconn(prop, case, impl, model):
+    if 'PANIC' in impl:
+        return [('violation', 'netconn:panic', impl['PANIC'][:300])]
+    if 'dialerr' in impl or 'modelerror' in model:
+        return [('disagree', 'netconn:setup', str(impl.get('dialerr')) + ' ' + str(model.get('modelerror'))[:300])]
+    out = []
+    k = case.get('kind')
+    if k == 'stream':
+        if impl.get('werr') != 'true':
+            out.append(('violation', 'netconn:write-failed', 'a Write on the adapter failed'))
+        if (impl.get('n'), impl.get('fnv')) != (impl.get('wn'), impl.get('wfnv')):
+            out.append(('violation', 'netconn:stream-differs', 'bytes read (%s) are not the bytes written (%s)' % (impl.get('n'), impl.get('wn'))))
+        if impl.get('end') != 'eof':
+            out.append(('violation', 'netconn:end', 'the stream ended with %s instead of io.EOF' % impl.get('end')))
+        if impl.get('zeroreads') != '0':
+            out.append(('violation', 'netconn:zero-read', 'a Read returned 0 bytes without error'))
+        if not out and (impl.get('end'), impl.get('n'), impl.get('fnv')) != (model.get('end'), model.get('n'), model.get('fnv')):
+            out.append(('disagree', 'netconn:model-stream', 'model stream differs'))
+    else:
+        for f in [x for x in model if x not in ('id', '_line')]:
+            if f == 'third' and model.get('second', '').startswith('close:'):
+                continue   # after a non-normal close the connection is closed: any error
+            if impl.get(f) != model.get(f):
+                out.append(('violation', 'netconn:%s:%s' % (k, f), '%s: library %s, specification %s' % (f, impl.get(f), model.get(f))))
+                break
+    return out
+
+def cmp_wsjson(prop, case, impl, model):
+    if 'PANIC' in impl:
+        return [('violation', 'wsjson:panic', impl['PANIC'][:300])]
+    for bad in ('dialerr', 'readerr', 'writeerr'):
+        if bad in impl:
+            return [('violation', 'wsjson:' + bad, 'call failed: ' + impl[bad])]
+    out = []
+    for f in [x for x in model if x not in ('id', '_line')]:
+        if impl.get(f) != model.get(f):
+            out.append(('violation', 'wsjson:%s:%s' % (case.get('kind'), f), '%s: library %s, specification %s' % (f, impl.get(f), model.get(f))))
+            break
+    return out
+
 COMPARE = {
+    'netconn': cmp_netconn,
+    'wsjson': cmp_wsjson,
     'sched': cmp_sched,
     'hs-accept': cmp_hs_accept,
     'hs-dial': cmp_hs_dial,
@@ -257,8 +299,10 @@ def nontrivial(suite, case, impl):
         return n >= 4
     if suite == 'wire-in':
         return case.get('ops', '').count('R') > 1 and len(case.get('stream', '')) > 16
-    if suite in ('pair', 'hs-accept', 'hs-dial', 'sched'):
+    if suite in ('pair', 'hs-accept', 'hs-dial', 'sched', 'wsjson'):
         return True
+    if suite == 'netconn':
+        return case.get('kind') != 'stream' or ',' in case.get('writes', '')
     if suite == 'wire-out':
         return int(impl.get('n', '0') or 0) > 200 or '|' in case.get('prog', '')
     return True
@@ -328,7 +372,7 @@ PROPS = {
         level_text='Theorems: frames parse back exactly for every program/configuration/compressor behaviour; the client\'s copy-then-mask bufio loop puts pending ++ mask(payload) on the wire for every '
                    'buffer fill state; the trim writer sends all but the last 4 bytes for any chunking; the sliding-window dictionary is the last 32 KiB for any slice sizes. Tie: model wire = tapped wire and '
                    'model delivery = library delivery on every case; judge: received = written.',
-        level_note='partial: the end-to-end theorem Reader(Writer(prog)) = messages (C01_roundtrip) is not yet proved; it is checked case by case by running the extracted Writer∘Reader composition.',
+        level_note='C01_roundtrip_uncompressed is the end-to-end theorem for uncompressed messages; compressed round trips rest on the flate oracle and are checked case by case by running the extracted Writer∘Reader composition.',
         technique='Coq proofs (induction over chunk lists / buffer loop) + differential run of extracted Writer∘Reader vs two library endpoints',
     ),
     'C11': dict(
@@ -378,6 +422,31 @@ PROPS = {
         level_note='data exchange correctness under the agreed parameters is C01-C03 (flate oracle).',
         technique='Coq proofs over a Gallina model of the negotiation (finite mode grid by computation, offers by induction) + differential runs through Accept/Dial + end-to-end exchanges',
     ),
+    'C18': dict(
+        suites=['netconn'],
+        rule='netconn suite: byte streams through NetConn on two library endpoints (write-size sequences 0..70000 incl. 0, 125/126, 4096+-1, 65535/65536 against cyclic read-buffer sequences 1..100000, both message types, '
+             '3x3 compression modes); peer Close frames with codes 1000/1001/1002/1003/1008/1011/3000/4000/4999 after a message; a message of the other type; deadlines in the past / 20 ms future while idle, and firing '
+             'during a blocked Read / a Write that blocks on a stalled transport. non-trivial = stream cases with >= 2 writes and every other kind; distinct = distinct case line',
+        trusted=COMMON_TRUSTED + ['NetConn model at message level (the underlying connection is C01/C03); deadline timers are real time: 20-80 ms margins'],
+        assumptions=['whether a timer fires during or between calls in a real run is a scheduling fact: the harness arranges it with sleeps', 'a zero-length read buffer is outside the property (the real Read spins): the model states 0 < size'],
+        level_text='Theorems: the adapter\'s Reads return exactly the concatenation of the messages (any write sizes incl. empty, any positive read sizes), every data result non-empty; 1000/1001 read as sticky io.EOF; other close '
+                   'codes pass through; wrong type fails and closes with 1003; a deadline firing while idle sets a flag that fails later calls until reset and leaves the connection untouched; firing during a call cancels the side\'s context.',
+        level_note='deadline theorems are about the flag/tryLock state machine; the effect of the cancelled context is C10.',
+        technique='Coq proofs (induction over read sizes with a fuel measure) + differential runs through NetConn on real connection pairs',
+    ),
+    'C19': dict(
+        suites=['wsjson'],
+        rule='wsjson suite: 1-5 values per connection from a recursive generator (null, bool, numbers, strings with unicode / control characters / HTML characters / 300 bytes, arrays, objects, depth 3) through '
+             'wsjson.Write / wsjson.Read on two library endpoints (3x3 compression modes), targets interface{} and json.RawMessage, previously decoded results re-compared after all later reads; documents of 40-80 KB with '
+             'the limit raised; struct and []byte targets; 9 malformed / truncated documents from a raw peer. non-trivial = every case',
+        trusted=COMMON_TRUSTED + ['encoding/json is the oracle for validity and JSON-equivalence (harness side); the model decides framing, message count per value and the error path'],
+        assumptions=['J1: json.Unmarshal of json.Marshal\'s output is JSON-equivalent to the value (hypothesis of C19_roundtrip)', 'that decoded results do not alias the pooled buffer depends on encoding/json copying: exercised by the suite, not proved'],
+        not_covered=['non-aliasing of decoded values (behaviour of encoding/json)'],
+        level_text='Theorems (for every codec satisfying J1): Write is exactly one text message = encoding + newline; a sequence of writes is read back value by value in order; each Read consumes exactly one message; an invalid '
+                   'document fails the Read and closes the connection with 1007. Tie: values round-trip to JSON-equivalent values, one text message each on the tapped wire, 1007 observed for invalid documents.',
+        level_note='partial: JSON equivalence and non-aliasing rest on encoding/json (assumed J1 / tested).',
+        technique='Coq proofs parameterised by an abstract codec + differential runs through wsjson on real connection pairs',
+    ),
     'C16': dict(
         suites=['close', 'wire-out', 'sched'],
         rule='close suite (local Close with every code class, peer-initiated Close frames valid and malformed — the latter answered by an error close that leaves the connection open — '
@@ -396,7 +465,7 @@ PROPS = {
         level_text='Theorems (every state / input): each header-level violation of the property\'s list is rejected by readLoop before any data is handed out; top-bit lengths '
                    'and malformed Close payloads fail; header decode∘encode = id. Whole-stream equality with the reference decoder is carried by the correspondence '
                    '(model = library on every generated stream) — the stream-level refinement theorem is stated in DESIGN.md and not yet proved (partial).',
-        level_note='partial: step-level theorems proved; stream-level C03_valid / C03_first_violation pending. Compressed content via the inflate oracle.',
+        level_note='C03_valid is the stream-level theorem for valid uncompressed streams (both roles, all fragmentations, control frames anywhere, any buffer sizes); violations are covered by step-level theorems; compressed content via the inflate oracle (correspondence).',
         technique='Coq proof (case analysis over the header / control-frame paths) + differential run of the extracted Reader model vs the library over scripted raw peers',
     ),
     'C04': dict(
@@ -405,7 +474,7 @@ PROPS = {
         level_text='Theorems: the payload stream of a message reports its end only in a state where the final frame has been consumed completely; Read on an uncompressed '
                    'message reports a clean end only then; a transport that ended inside a payload fails the read. Every crash point (cut offset) of scripted streams is '
                    'run through model and library.',
-        level_note='partial: step-level theorems; the history-level statement (every cut of every valid script) is carried by the exhaustive cut sweeps of the correspondence.',
+        level_note='C04_no_silent_truncation is the full statement for uncompressed streams (every cut offset, both endings, both roles, any buffer sizes); compressed streams are covered by the exhaustive cut sweeps of the correspondence.',
         technique='Coq proof (induction on the frame loop) + differential run over every cut offset x {EOF, failure} x buffer sizes',
     ),
     'C08': dict(
@@ -414,7 +483,7 @@ PROPS = {
         not_covered=['actual heap allocation (runtime behaviour)'],
         level_text='Theorems: after limit+1 bytes every Read fails with the limit error and writes Close 1009; decoded lengths are < 2^63 and top-bit lengths are rejected; '
                    'the default limit constant is regenerated from read.go. Limits around the boundary, changed between messages, and compression bombs are run through model and library.',
-        level_note='partial: memory bound is a statement about the model\'s state only; within-limit delivery is carried by the correspondence.',
+        level_note='C08_limit_stream is the stream-level theorem (within the limit: delivered; over: fails after exactly L+1 bytes with Close 1009) for uncompressed streams; compressed input incl. bombs by correspondence; memory is a statement about the model\'s state only.',
         technique='Coq proof + differential run (limits -1,0,1,125,1000,65536,default; sizes limit-1..much larger; bombs)',
     ),
     'C15': dict(
@@ -435,7 +504,7 @@ PROPS = {
         level_text='Theorem C02_wf: for every program, role, option set, threshold, key supply and every compressor behaviour the Writer model\'s wire bytes parse back '
                    '(specification parser) to exactly the frames written and satisfy every conformance clause of the property. Tie: the library\'s recorded bytes equal the '
                    'model\'s bytes case by case, and the extracted specification decoder (+ inflate) is applied to the library\'s bytes as judge.',
-        level_note='Writer model hand-written from write.go/compress.go/frame.go; compressor is an oracle; message reassembly/inflation equality is checked by the judge on every case (theorem C02_decodes pending).',
+        level_note='Writer model hand-written from write.go/compress.go/frame.go; compressor is an oracle (C02_decodes states what an independent decoder reassembles for every compressor behaviour; inflation to the plaintext is checked by the judge with Go\'s inflater).',
         technique='Coq proof (invariant over operation sequences; decode∘encode) + differential run of the extracted model vs the library through Dial/Accept with a scripted raw peer',
     ),
     'C17': dict(
